@@ -369,6 +369,21 @@ def run_harnesses(scratch, hs, logdir, jobs=None):
             log("  [kani] %-40s %-8s %-10s %6.1fs  checks=%d" % (
                 r["harness"], r["status"], r["verdict"], r["wall_s"], len(r["checks"])))
             results.append(r)
+    # second chance for harnesses that ran out of memory: alone, 40 GB, CaDiCaL (lighter than
+    # MiniSat on memory); still out of memory => undecided
+    retry = [r for r in results if r["status"] == "oom"]
+    if retry and not os.environ.get("VERIF_NO_RETRY"):
+        byname = {h["name"]: h for h in hs}
+        for r in retry[:int(os.environ.get("VERIF_MAX_RETRY", "3"))]:
+            h = dict(byname[r["harness"]])
+            h["mem"] = 40
+            h["solver"] = "cadical"
+            h["timeout"] = max(h.get("timeout", 900), 1500)
+            r2 = run_harness(scratch, h, logdir, suffix=".retry")
+            r2["harness"] = r["harness"]
+            log("  [kani] %-40s %-8s %-10s %6.1fs  checks=%d (retry: 40 GB, cadical)" % (
+                r2["harness"], r2["status"], r2["verdict"], r2["wall_s"], len(r2["checks"])))
+            results[results.index(r)] = r2
     return results
 
 
